@@ -20,7 +20,7 @@ ASSUMPTIONS = [
     "recordSize <= 0 is outside the domain",
 ]
 NONTRIVIAL = ["triple", "limitcell", "lenclass"]
-DEADLINE = {"quick": 60, "thorough": 900}
+DEADLINE = {"quick": 150, "thorough": 900}
 
 RSL = [None, 64, 65, 512, 2 ** 14, 2 ** 14 + 1]
 RECSIZES = [1, 2, 15, 16, 17, 255, 2 ** 14]
